@@ -82,6 +82,10 @@ type Step struct {
 	// that revision with that mtime before the step renders (see edits_test.go).
 	Rev int `json:"rev,omitempty"`
 	Mt  int `json:"mt,omitempty"`
+	// Deny: while this step renders, "page" = the program's page file, "all" = every .vuego
+	// file of the program cannot be opened or stat'ed (fs.ErrPermission, i.e. NOT not-exist);
+	// a later step without Deny finds the files readable again.
+	Deny string `json:"deny,omitempty"`
 }
 
 // Case is a history. Mode "history" (default), "probe" (Steps[0] rendered K times on one
@@ -160,6 +164,7 @@ type seat struct {
 	fs      *memfs.FS
 	base    cat.Program
 	rev, mt int
+	deny    string
 }
 
 func parseBody(body string) []*html.Node {
@@ -237,7 +242,13 @@ func (s *seat) call(entry string, dm map[string]any) (result, error) {
 
 // fresh renders program p alone: new filesystem, new engine, new data.
 func fresh(p cat.Program, entry string, v int) (result, error) {
+	return freshDeny(p, entry, v, "")
+}
+
+// freshDeny: the same with the files made unreadable BEFORE the engine is created.
+func freshDeny(p cat.Program, entry string, v int, deny string) (result, error) {
 	fsys := p.FS()
+	denyFiles(fsys, p, deny, fs.ErrPermission)
 	st := &seat{p: p, page: "page.vuego", eng: newEngineFor(p, fsys, []string{entry})}
 	return st.call(entry, goData(p, v))
 }
@@ -248,6 +259,7 @@ type refKey struct {
 	prog, entry string
 	v           int
 	rev         int
+	deny        string
 }
 
 var (
@@ -259,7 +271,7 @@ var (
 // whole table is filled by TestProp before the first history; a replayed case fills what it
 // needs before its history starts).
 func reference(p cat.Program, entry string, v int) (result, error) {
-	k := refKey{p.Name, entry, v, 0}
+	k := refKey{p.Name, entry, v, 0, ""}
 	refMu.Lock()
 	defer refMu.Unlock()
 	if r, ok := refTab[k]; ok {
@@ -603,17 +615,17 @@ func judge(c Case, p cat.Program, where string, got, ref result, refName string,
 }
 
 func refFor(c Case, defRefs map[refKey]result, p cat.Program, entry string, v int) (result, error) {
-	return refForRev(c, defRefs, p, entry, v, 0)
+	return refForRev(c, defRefs, p, entry, v, 0, "")
 }
 
 // refForRev: p is already the revised program when rev != 0 (revisions are never in the table).
-func refForRev(c Case, defRefs map[refKey]result, p cat.Program, entry string, v, rev int) (result, error) {
-	if _, inline := lookupDef(c, p.Name); inline || rev != 0 {
-		k := refKey{p.Name, entry, v, rev}
+func refForRev(c Case, defRefs map[refKey]result, p cat.Program, entry string, v, rev int, deny string) (result, error) {
+	if _, inline := lookupDef(c, p.Name); inline || rev != 0 || deny != "" {
+		k := refKey{p.Name, entry, v, rev, deny}
 		if r, ok := defRefs[k]; ok {
 			return r, nil
 		}
-		r, err := fresh(p, entry, v)
+		r, err := freshDeny(p, entry, v, deny)
 		if err == nil {
 			defRefs[k] = r
 		}
@@ -623,6 +635,11 @@ func refForRev(c Case, defRefs map[refKey]result, p cat.Program, entry string, v
 }
 
 func check(c Case) error {
+	for _, g := range c.Gen {
+		if compose.TooLarge(g) {
+			return nil // expands to megabytes of output: outside this family's budget
+		}
+	}
 	switch c.Mode {
 	case "rebase":
 		return rebase()
@@ -658,7 +675,7 @@ func check(c Case) error {
 			return err
 		}
 		p = revise(p, st.Rev)
-		ref, err := refForRev(c, defRefs, p, st.Entry, st.Var, st.Rev)
+		ref, err := refForRev(c, defRefs, p, st.Entry, st.Var, st.Rev, st.Deny)
 		if err != nil {
 			return fmt.Errorf("step %d (%s/%s rev %d) alone on a fresh engine: %w", i, st.Prog, st.Entry, st.Rev, err)
 		}
@@ -716,6 +733,13 @@ func check(c Case) error {
 		if err != nil {
 			return fmt.Errorf("step %d: %w", i+1, err)
 		}
+		denied, err := w.seats[st.Prog].setDeny(st.Deny)
+		if err != nil {
+			return fmt.Errorf("step %d: %w", i+1, err)
+		}
+		if denied != "" {
+			edited = strings.TrimPrefix(edited+"; "+denied, "; ")
+		}
 		for r := 0; r < st.k(); r++ {
 			where := fmt.Sprintf("step %d of %d (%s/%s/v%d), render %d of %d", i+1, len(c.Steps), st.Prog, st.Entry, st.Var, r+1, st.k())
 			if edited != "" {
@@ -739,13 +763,13 @@ func check(c Case) error {
 		if !c.Recheck {
 			break
 		}
-		k := refKey{st.Prog, st.Entry, st.Var, st.Rev}
+		k := refKey{st.Prog, st.Entry, st.Var, st.Rev, st.Deny}
 		if seen[k] {
 			continue
 		}
 		seen[k] = true
 		pl := plans[i]
-		got, err := fresh(pl.p, st.Entry, st.Var)
+		got, err := freshDeny(pl.p, st.Entry, st.Var, st.Deny)
 		where := fmt.Sprintf("%s/%s/v%d on a fresh engine AFTER the history", st.Prog, st.Entry, st.Var)
 		if err != nil {
 			return fmt.Errorf("%s: %w", where, err)
@@ -1206,20 +1230,36 @@ func TestProp(t *testing.T) {
 		}
 		st := func(rev, mt, k int) Step { return Step{Prog: cb.p.Name, Entry: cb.entry, Rev: rev, Mt: mt, K: k} }
 		each("edits-core", Case{Steps: []Step{st(0, 0, 1), st(1, 2, 1), st(2, 1, 1), st(0, -1, 1), st(1, 3, 2)}})
+		// the page (then every template file) becomes unreadable with a permission error after
+		// it was rendered, and readable again
+		dn := func(deny string, k int) Step { return Step{Prog: cb.p.Name, Entry: cb.entry, Deny: deny, K: k} }
+		each("edits-core", Case{Steps: []Step{dn("", 2), dn("page", 2), dn("", 1), dn("all", 1), dn("", 1)}})
 	}
 	// exhaustive core: all ordered pairs of (program, entry). For every A the other
 	// combinations are visited four per history: A, B1, A, B2, A, B3, A, B4, A - every B is
 	// rendered right after A and A right after every B, all on long-lived engines.
 	pairHistories := func(kind string, list []combo, shared bool, keep func(ai, chunk int) bool) {
+		// B side: in the quick tier RenderString and RenderByte are represented by RenderReader
+		// (template_render.go: each is a one-line delegation to the next); A ranges over every
+		// entry in both tiers, thorough keeps the full square.
+		others := list
+		if !run.Thorough() {
+			others = nil
+			for _, cb := range list {
+				if cb.entry != "string" && cb.entry != "byte" {
+					others = append(others, cb)
+				}
+			}
+		}
 		for ai, a := range list {
-			for lo := 0; lo < len(list); lo += 4 {
+			for lo := 0; lo < len(others); lo += 4 {
 				if !keep(ai, lo/4) {
 					continue
 				}
 				sa := Step{Prog: a.p.Name, Entry: a.entry}
 				steps := []Step{sa}
-				for bi := lo; bi < lo+4 && bi < len(list); bi++ {
-					steps = append(steps, Step{Prog: list[bi].p.Name, Entry: list[bi].entry}, sa)
+				for bi := lo; bi < lo+4 && bi < len(others); bi++ {
+					steps = append(steps, Step{Prog: others[bi].p.Name, Entry: others[bi].entry}, sa)
 				}
 				each(kind, Case{Shared: shared, Steps: steps})
 			}
@@ -1281,7 +1321,7 @@ func TestProp(t *testing.T) {
 		}
 	}
 	if ok {
-		rec.Exhaustive(fmt.Sprintf("all ordered pairs (A, B) of %d applicable (program, entry) combinations (one member per twin family) of %d programs as history A, B, A on long-lived engines; all ordered pairs of twin-family members x entry pairs on the shared engine; every (program, entry) with every value typing first on the engine followed by the others; every hazard program x entry x data variant probed 30+30 times; every (program, entry) through the data variants 0,1,0,2,1,0 on one engine", len(core), len(named)))
+		rec.Exhaustive(fmt.Sprintf("all ordered pairs (A, B) of %d applicable (program, entry) combinations (one member per twin family; quick: B over the entries other than string/byte, which delegate to reader) of %d programs as history A, B, A on long-lived engines; all ordered pairs of twin-family members x entry pairs on the shared engine; every (program, entry) with every value typing first on the engine followed by the others; every hazard program x entry x data variant probed 30+30 times; every (program, entry) through the data variants 0,1,0,2,1,0 on one engine", len(core), len(named)))
 	}
 
 	run.Rapid(t, rec, "history", genHistory, classify, check)
